@@ -42,6 +42,7 @@ structure DSt where
   maxT : Nat := 0              -- largest checkpoint id started while the model was not following
   untrusted : List Nat := []   -- checkpoints completed (or possibly completed) while not following: contents unknown
   kfCount : Nat := 0           -- tagged deviations so far in this case
+  suspect : Bool := false      -- the current deployment restored a checkpoint a live redeploy may have damaged on disk (D50)
   resyncs : Nat := 0
 
 def keyBytes (k : Nat) : Bytes := (0x6b : UInt8) :: (toString k).toList.map (fun c => UInt8.ofNat c.toNat)
@@ -129,6 +130,13 @@ def ackExpected (d : DSt) : Bool :=
   | some "restartpub" => !d.s.writing.isEmpty
   | _ => false
 
+/-- A live redeploy reopens the surviving operators' databases in their directories from the restored checkpoint
+`ck`: the checkpoints those processes took after `ck` (complete, published or not) lose their entry in the rewritten
+`checkpoints` document and their WAL file names are used again (finding D50). Their contents on disk are no longer
+the model's: the model must not re-synchronise on them. -/
+def suspectsAtLive (d : DSt) (ck : Option Nat) : List Nat :=
+  ((d.s.published ++ d.s.writing).map (·.id)).filter fun id => match ck with | some c => id > c | none => true
+
 /-- replay one event token; answer = the token the model agrees with -/
 def applyTok (d : DSt) (tok : String) : DSt × String :=
   let bad (why : String) : DSt × String := ({ d with ok := false }, s!"DISABLED({tok}:{why})")
@@ -198,7 +206,9 @@ def applyTok (d : DSt) (tok : String) : DSt × String :=
       | some (d', _) =>
         let cs := joinWith "." ((List.range d.nsplits).map fun sp => toString (d'.s.cursor sp))
         -- every process of this deployment is new: no loop of an earlier deployment is left in it
-        ({ d' with live := false }, s!"R:{n}:{ck}:{cs}:{j}")
+        -- ... unless it restores a checkpoint whose files a live-redeployed operator has since reopened and rewritten
+        let susp := match newest d.s.published with | some c => d.untrusted.contains c.id | none => false
+        ({ d' with live := false, suspect := susp }, s!"R:{n}:{ck}:{cs}:{j}")
       | none => bad "restart"
     | ["L", n, _ck, _cs, j] =>
       let ck := match newest d.s.published with
@@ -213,7 +223,8 @@ def applyTok (d : DSt) (tok : String) : DSt × String :=
         let s' := if j == "j" then
             { d'.s with writing := [], nextId := match newest d.s.published with | some c => c.id + 1 | none => 1 }
           else d'.s
-        ({ d' with s := s', live := true }, s!"L:{n}:{ck}:{cs}:{j}")
+        ({ d' with s := s', live := true, suspect := false,
+                   untrusted := suspectsAtLive d ((newest d.s.published).map (·.id)) ++ d.untrusted }, s!"L:{n}:{ck}:{cs}:{j}")
       | none => bad "redeploy"
     | ["x", w] =>
       match act d (.kill (natOr w)) with
@@ -284,19 +295,20 @@ def echoTok (d : DSt) (tok : String) : DSt :=
       | none => d
     | none => { d with untrusted := natOr id :: d.untrusted }
   | ["kj"] => { d with s := { d.s with writing := [] } }   -- the job process died: its publications in flight are gone
+  | ["L", _n, ck, _cs, _j] => { d with untrusted := suspectsAtLive d ck.toNat? ++ d.untrusted }
   | ["R", n, ck, cs, j] =>
     let mine := match newest d.s.published with
       | some c => toString c.id
       | none => "none"
     -- the implementation restores its newest published checkpoint; if that is the model's newest one, nothing of
     -- unknown contents has been published since
-    if ck == mine then
+    if ck == mine && !(match ck.toNat? with | some c => d.untrusted.contains c | none => false) then
       match act d (.restart (natOr n) (j == "j")) with
       | some (d', _) =>
         -- the same id must also be the same checkpoint (ids are used again after a job restart): the cursors agree
         if joinWith "." ((List.range d.nsplits).map fun sp => toString (d'.s.cursor sp)) != cs then d else
         let s' := if j == "j" then d'.s else { d'.s with nextId := max d'.s.nextId (d.maxT + 1) }
-        { d' with s := s', echo := false, ok := true, live := false, resyncs := d.resyncs + 1,
+        { d' with s := s', echo := false, ok := true, live := false, suspect := false, resyncs := d.resyncs + 1,
                   untrusted := if j == "j" then [] else d.untrusted }
       | none => d
     else d
@@ -347,10 +359,11 @@ def step' (d : DSt) (ws : List String) : DSt × String :=
       ((echoLine { d with echo := true } toks []).1, joinWith " " toks)
     -- model of the code as it is after a live redeploy: whatever the implementation did; the spec side is the
     -- fresh-process model. Only the first deviation of a kind a stale loop can cause is the known finding.
-    else if d'.live && line != joinWith " " toks && ((firstDiff toks out).map d39Kind).getD false then
+    else if (d'.live || d'.suspect) && line != joinWith " " toks && ((firstDiff toks out).map d39Kind).getD false then
       -- the restore that no longer finds a checkpoint in the redeployed operator's own `checkpoints` document is
       -- finding D50 (a database reopened in its directory drops earlier entries) reached through the live redeploy
-      let id := if ((firstDiff toks out).map (·.startsWith "!deploy-panic:failed_to_find_indicated_checkpoint")).getD false
+      let id := if (d'.suspect && !d'.live) ||
+          ((firstDiff toks out).map (·.startsWith "!deploy-panic:failed_to_find_indicated_checkpoint")).getD false
         then "D50" else "D39"
       -- the checkpoint pending at this moment may still complete: its contents are not the model's
       let pend := match d'.s.pending with | some p => [p.id] | none => []
